@@ -21,6 +21,7 @@ type vReal struct {
 	late   bool // SetPruning is called after the stores were loaded (both orders are legal)
 	k1, k2 *types.KVStoreKey
 	k3     *types.KVStoreKey // mounted but empty until block 3
+	k4     *types.KVStoreKey // holds one key in versions 1-2, empty again from version 3 on
 	tk     *types.TransientStoreKey
 	rs     *Store
 	ids    [8]types.CommitID
@@ -36,6 +37,7 @@ func (w *vReal) open() *Store {
 	rs.MountStoreWithDB(w.k1, types.StoreTypeIAVL, nil)
 	rs.MountStoreWithDB(w.k2, types.StoreTypeIAVL, nil)
 	rs.MountStoreWithDB(w.k3, types.StoreTypeIAVL, nil)
+	rs.MountStoreWithDB(w.k4, types.StoreTypeIAVL, nil)
 	rs.MountStoreWithDB(w.tk, types.StoreTypeTransient, nil)
 	return rs
 }
@@ -53,7 +55,7 @@ func vNewReal() *vReal {
 	w.db = &vDB{MemDB: dbm.NewMemDB(), events: &w.events, crashAt: &w.crash}
 	w.opts = types.NewPruningOptions(zz.Int64("keep_recent", 0, 2), zz.Int64("keep_every", 0, 2))
 	w.late = zz.Choice("set_pruning_after_load", 2) == 1
-	w.k1, w.k2, w.k3 = types.NewKVStoreKey("alpha"), types.NewKVStoreKey("beta"), types.NewKVStoreKey("gamma")
+	w.k1, w.k2, w.k3, w.k4 = types.NewKVStoreKey("alpha"), types.NewKVStoreKey("beta"), types.NewKVStoreKey("gamma"), types.NewKVStoreKey("delta")
 	w.tk = types.NewTransientStoreKey("transient")
 	w.rs = w.open()
 	zz.Assert("C12.real.load-empty", w.loaded(w.rs, w.rs.LoadLatestVersion()) == nil)
@@ -72,6 +74,12 @@ func (w *vReal) block(rs *Store, v int64) {
 	}
 	if v >= 3 {
 		rs.GetKVStore(w.k3).Set([]byte("g"), []byte{3, byte(v)})
+	}
+	if v == 1 {
+		rs.GetKVStore(w.k4).Set([]byte("d"), []byte{4})
+	}
+	if v == 3 {
+		rs.GetKVStore(w.k4).Delete([]byte("d"))
 	}
 	// per-block scratch data reaches the transient store the way baseapp's deliver state writes it: through a
 	// cache-wrapped multistore that is flushed before Commit
@@ -96,7 +104,8 @@ func (w *vReal) contentAt(rs interface {
 	return bytes.Equal(rs.GetKVStore(w.k1).Get([]byte("k")), []byte{1, byte(v)}) &&
 		bytes.Equal(rs.GetKVStore(w.k2).Get([]byte("k")), []byte{2, byte(v)}) &&
 		rs.GetKVStore(w.k1).Has([]byte("only2")) == (v == 2) &&
-		rs.GetKVStore(w.k3).Has([]byte("g")) == (v >= 3) && (v < 3 || bytes.Equal(rs.GetKVStore(w.k3).Get([]byte("g")), []byte{3, byte(v)}))
+		rs.GetKVStore(w.k3).Has([]byte("g")) == (v >= 3) && (v < 3 || bytes.Equal(rs.GetKVStore(w.k3).Get([]byte("g")), []byte{3, byte(v)})) &&
+		rs.GetKVStore(w.k4).Has([]byte("d")) == (v == 1 || v == 2)
 }
 
 // vRetained: the documented pruning policy (store/iavl Commit): after committing version n, version v < n survives
@@ -139,6 +148,14 @@ func VerifC12_RealReload() {
 	default:
 		zz.Assert("C12.real.pruned-version-unreadable", err != nil)
 	}
+	if err != nil {
+		zz.Assert("C12.real.failed-load-leaves-commit-id-alone", re.LastCommitID().Version == 0 && len(re.LastCommitID().Hash) == 0)
+		// ... also on a store object that is in use: the running store stays at its latest version and goes on committing
+		lerr := w.rs.LoadVersion(target)
+		if lerr != nil {
+			zz.Assert("C12.real.failed-load-on-running-store-keeps-sequence", w.rs.LastCommitID().Version == N && bytes.Equal(w.rs.LastCommitID().Hash, w.ids[N].Hash))
+		}
+	}
 	// a versioned view of the running store shows committed content only, also for the latest version while the next
 	// block's writes are pending
 	w.block(w.rs, N+1)
@@ -159,7 +176,13 @@ func VerifC12_RealReload() {
 
 // VerifC11_HistoricalCopy: the copy the base application opens for historical contexts and custom queries
 // (CopyStore + LoadVersion at any height, including 0 = before the first commit) leaves the live multistore untouched.
-func VerifC11_HistoricalCopy() {
+func VerifC11_HistoricalCopy() { vHistoricalCopy("C11.copy") }
+
+// VerifC12_HistoricalCopyKeepsCommits: the same, read as durability: what a block wrote while a historical copy was
+// opened (at any height, 0 included) is committed and found by a reopened store.
+func VerifC12_HistoricalCopyKeepsCommits() { vHistoricalCopy("C12.copy") }
+
+func vHistoricalCopy(p string) {
 	w := vNewReal()
 	n := int64(zz.Choice("commits", 3))
 	w.commits(n)
@@ -169,17 +192,17 @@ func VerifC11_HistoricalCopy() {
 	target := zz.Int64("target", 0, 3)
 	cp := (*w.rs.CopyStore()).(*Store)
 	err := cp.LoadVersion(target)
-	zz.Assert("C11.copy.live-substores-untouched", w.rs.stores[w.k1] == live1 && w.rs.stores[w.k2] == live2)
-	zz.Assert("C11.copy.live-commit-id-untouched", w.rs.LastCommitID().Version == liveID.Version && bytes.Equal(w.rs.LastCommitID().Hash, liveID.Hash))
-	zz.Assert("C11.copy.live-working-state-untouched", w.contentAt(w.rs, n+1))
+	zz.Assert(p+".live-substores-untouched", w.rs.stores[w.k1] == live1 && w.rs.stores[w.k2] == live2)
+	zz.Assert(p+".live-commit-id-untouched", w.rs.LastCommitID().Version == liveID.Version && bytes.Equal(w.rs.LastCommitID().Hash, liveID.Hash))
+	zz.Assert(p+".live-working-state-untouched", w.contentAt(w.rs, n+1))
 	if err == nil && target >= 1 && target <= n {
-		zz.Assert("C11.copy.sees-history", w.contentAt(cp, target))
+		zz.Assert(p+".sees-history", w.contentAt(cp, target))
 	}
 	id := w.rs.Commit()
-	zz.Assert("C11.copy.next-commit-unaffected", id.Version == n+1)
+	zz.Assert(p+".next-commit-unaffected", id.Version == n+1)
 	re := w.open()
-	zz.Assert("C11.copy.next-commit-holds-working-state", w.loaded(re, re.LoadLatestVersion()) == nil && w.contentAt(re, n+1))
-	zz.Reach("C11.copy.end")
+	zz.Assert(p+".next-commit-holds-working-state", w.loaded(re, re.LoadLatestVersion()) == nil && w.contentAt(re, n+1))
+	zz.Reach(p + ".end")
 }
 
 // VerifC13_RealCrash: the process dies at a symbolic DB write event of the third Commit (every tree flush, every
@@ -252,7 +275,7 @@ func vNewRealWith(o types.PruningOptions) *vReal {
 	w := &vReal{crash: 1 << 30}
 	w.db = &vDB{MemDB: dbm.NewMemDB(), events: &w.events, crashAt: &w.crash}
 	w.opts = o
-	w.k1, w.k2, w.k3 = types.NewKVStoreKey("alpha"), types.NewKVStoreKey("beta"), types.NewKVStoreKey("gamma")
+	w.k1, w.k2, w.k3, w.k4 = types.NewKVStoreKey("alpha"), types.NewKVStoreKey("beta"), types.NewKVStoreKey("gamma"), types.NewKVStoreKey("delta")
 	w.tk = types.NewTransientStoreKey("transient")
 	w.rs = w.open()
 	zz.Assert("C12.real.load-empty", w.loaded(w.rs, w.rs.LoadLatestVersion()) == nil)
@@ -266,12 +289,21 @@ func VerifC14_RealQuery() {
 	const N = 4
 	w.commits(N)
 	w.block(w.rs, N+1) // a later block being executed
-	si := zz.Choice("store", 2)
-	name := []string{"alpha", "beta"}[si]
+	si := zz.Choice("store", 3)
+	name := []string{"alpha", "beta", "delta"}[si]
 	key := [][]byte{[]byte("k"), []byte("only2"), []byte("zz"), []byte("a")}[zz.Choice("key", 4)]
+	if si == 2 {
+		key = []byte("d")
+	}
 	h := zz.Int64("height", 0, N+1)
 	prove := zz.Bool("prove")
-	res := w.rs.Query(abci.RequestQuery{Path: "/" + name + "/key", Data: key, Height: h, Prove: prove})
+	// asked of the running store, or of a store freshly reopened from the database (a restarted node)
+	q := w.rs
+	if zz.Choice("via_reopened_store", 2) == 1 {
+		q = w.open()
+		zz.Assert("C14.real.reopens", w.loaded(q, q.LoadLatestVersion()) == nil)
+	}
+	res := q.Query(abci.RequestQuery{Path: "/" + name + "/key", Data: key, Height: h, Prove: prove})
 
 	exists := func(v int64) bool { return v == N || (v >= 1 && v < N && vRetained(w.opts, v, N)) }
 	he := h
@@ -283,7 +315,7 @@ func VerifC14_RealQuery() {
 	}
 	var want []byte
 	switch {
-	case string(key) == "k":
+	case string(key) == "k" && si < 2:
 		for v := int64(0); v <= N+1; v++ { // (concrete bytes: the proof check hashes the value)
 			if he == v {
 				want = []byte{byte(si + 1), byte(v)}
@@ -291,6 +323,8 @@ func VerifC14_RealQuery() {
 		}
 	case string(key) == "only2" && si == 0 && he == 2:
 		want = []byte{9}
+	case si == 2 && (he == 1 || he == 2):
+		want = []byte{4}
 	}
 	if !exists(he) {
 		zz.Assert("C14.real.pruned-or-future-height-no-value", len(res.Value) == 0)
